@@ -344,11 +344,12 @@ PROPS = {
                                  'DX.eq_iff_cmp_equal', 'DX.pcmp_eq_some_cmp', 'DX.eq_iff_pcmp_equal', 'DX.eq_imp_hash_eq',
                                  'DX.cmp_swap', 'DX.eq_refl_symm', 'DX.eq_trans_fields', 'DX.lexL_lawful', 'DX.cmp_fields_lawful',
                                  'DX.cmp_trans_fields', 'DX.variant_order_lawful']),
+                  (CMP + 'C02Order', ['DX.sumCmp_lawful', 'DX.cmp_lawful', 'DX.cmp_le_trans', 'DX.eq_trans', 'DX.eq_trans_item']),
                   (CMP + 'C05', ['DX.trait_error_iff_misuse'])],
         l1=[('cmp1', 'all', 'all'), ('cmp1all', 20000, 'all'), ('cmpN', 2000, 100000)],
         labels=r':(PartialEq|PartialOrd|Ord|Eq|Hash)$',
         extra=extra_cmp_l2('lawRun', ('eq', 'pcmp', 'cmp', 'hash'), 1200, 24000, laws=True),
-        explanation='theorems: for every item and every coherent environment (one key per field, lawful field impls) the accepted impls agree: == iff partial_cmp==Some(Equal) iff cmp==Equal, partial_cmp==Some(cmp), == implies equal hasher feeds, cmp flips under swap, == is an equivalence; refusal of everything else is C05.trait_error_iff_misuse. cmp is proved transitive (a lexicographic product of lawful comparisons is lawful) on values of one variant, and the order of variants is lawful; the two are not yet combined into one item-level statement (the model-free law checks of L2 cover triples across variants). L2: compiled programs with one consistent key, all pairs and triples of values, laws checked on the observed results without any model',
+        explanation='theorems: for every item and every coherent environment (one key per field, lawful field impls) the accepted impls agree: == iff partial_cmp==Some(Equal) iff cmp==Equal, partial_cmp==Some(cmp), == implies equal hasher feeds, cmp flips under swap, == is an equivalence; refusal of everything else is C05.trait_error_iff_misuse. cmp is proved a total order on all values of the item (cmp_lawful: a lexicographic product of lawful comparisons is lawful on one variant, the order of variant positions is lawful, and tag-then-payload of lawful comparisons is lawful), == an equivalence on all values (eq_trans_item). L2: compiled programs with one consistent key, all pairs and triples of values, laws checked on the observed results without any model',
         level_text='Lean 4 theorems over the model (coherence of all accepted combinations, by case analysis over the attribute record and induction over field lists) + exhaustive L1 on the 3136-combination matrix + model-free law checks on compiled programs',
     ),
     'C03': dict(
